@@ -30,26 +30,26 @@ macro "wk_close" : tactic => `(tactic| first
   | (rs_hyps h => exact WInv.congr _ _ (AP.weak h) rfl rfl rfl)
   | (rs_hyps h => exact WInv.congr _ _ (AP.weak h.1.1) rfl rfl rfl))
 
-theorem nextSchedulerEvent_spec (n : Int) (ex : List SEvent) (evTime : Int) :
+theorem nextSchedulerEvent_rspec (n : Int) (ex : List SEvent) (evTime : Int) :
     ⦃RA n ex⦄ nextSchedulerEvent evTime
     ⦃post⟨fun r s => ⌜(AP RunOK ex s ∧ s.now = n) ∧ r.ev.etype ≠ ET.taskFinished⌝, fun _ s => ⌜WInv s⌝⟩⦄ := by
-  have h_mk := mkEvent_spec' n ex
-  have h_sched := schedulable_spec n ex
-  have h_liftE : ∀ e : Except SErr Int, KeepsR n ex (liftE e) := fun e => liftE_spec n ex e
-  mvcgen [nextSchedulerEvent, placedTasks, getTask, getGraph, nextOfType, h_mk, h_sched, h_liftE]
+  have h_mk := mkEvent_rspec' n ex
+  have h_sched := schedulable_rspec n ex
+  have h_liftE : ∀ e : Except SErr Int, KeepsR n ex (liftE e) := fun e => liftE_rspec n ex e
+  rmvcgen [nextSchedulerEvent, placedTasks, getTask, getGraph, nextOfType, h_mk, h_sched, h_liftE]
   case inv1 => exact loopR n ex
   all_goals first
     | ev_close
     | (refine ⟨by first | efadd_close | ev_close | (rs_hyps h => exact h.1), ?_⟩; etype_close)
     | (intro h1 h2 h3 _ _ _ _; exact ⟨⟨h1, h2⟩, by rw [h3]; decide⟩)
 
-theorem handleSchedulerStart_spec (n : Int) (ex : List SEvent) (ev : SEvent) : KeepsR n ex (handleSchedulerStart ev) := by
-  have h_mk := mkEvent_spec n ex
-  have h_sched := schedulable_spec n ex
-  have h_row := row_spec n ex
-  have h_util := logUtilization_spec n ex
-  have h_add := addEvent_spec n ex
-  mvcgen [handleSchedulerStart, placedTasks, h_mk, h_sched, h_row, h_util, h_add]
+theorem handleSchedulerStart_rspec (n : Int) (ex : List SEvent) (ev : SEvent) : KeepsR n ex (handleSchedulerStart ev) := by
+  have h_mk := mkEvent_rspec n ex
+  have h_sched := schedulable_rspec n ex
+  have h_row := row_rspec n ex
+  have h_util := logUtilization_rspec n ex
+  have h_add := addEvent_rspec n ex
+  rmvcgen [handleSchedulerStart, placedTasks, h_mk, h_sched, h_row, h_util, h_add]
   all_goals first
     | ev_close
     | etype_close
@@ -57,19 +57,19 @@ theorem handleSchedulerStart_spec (n : Int) (ex : List SEvent) (ev : SEvent) : K
     | (ap_step; exact EF_none _ _)
     | (intro s _ _ h3 _ _; rw [h3]; decide)
 
-theorem handleTaskCancel_spec (n : Int) (ex : List SEvent) (ev : SEvent) : KeepsR n ex (handleTaskCancel ev) := by
-  have h_row := row_spec n ex
-  have h_rm := removeEvent_spec n ex
-  mvcgen [handleTaskCancel, getTask, getGraph, h_row, h_rm]
+theorem handleTaskCancel_rspec (n : Int) (ex : List SEvent) (ev : SEvent) : KeepsR n ex (handleTaskCancel ev) := by
+  have h_row := row_rspec n ex
+  have h_rm := removeEvent_rspec n ex
+  rmvcgen [handleTaskCancel, getTask, getGraph, h_row, h_rm]
   all_goals first
     | ev_close
     | wk_close
 
-theorem handleTaskRelease_spec (n : Int) (ex : List SEvent) (ev : SEvent) : KeepsR n ex (handleTaskRelease ev) := by
-  have h_row := row_spec n ex
-  have h_edit := editEvent_spec n ex
-  have h_heap := reheapify_spec n ex
-  mvcgen [handleTaskRelease, getTask, getGraph, taskCall, setGraph, raiseTask, logE, findEvent, h_row, h_edit, h_heap]
+theorem handleTaskRelease_rspec (n : Int) (ex : List SEvent) (ev : SEvent) : KeepsR n ex (handleTaskRelease ev) := by
+  have h_row := row_rspec n ex
+  have h_edit := editEvent_rspec n ex
+  have h_heap := reheapify_rspec n ex
+  rmvcgen [handleTaskRelease, getTask, getGraph, taskCall, setGraph, raiseTask, logE, findEvent, h_row, h_edit, h_heap]
   all_goals first
     | ev_close
     | quiet_close
@@ -77,10 +77,10 @@ theorem handleTaskRelease_spec (n : Int) (ex : List SEvent) (ev : SEvent) : Keep
     | wk_close
     | (rs_hyps h => exact ⟨h, Or.inr ‹_›⟩)
 
-theorem handleTaskGraphRelease_spec (n : Int) (ex : List SEvent) (ev : SEvent) :
+theorem handleTaskGraphRelease_rspec (n : Int) (ex : List SEvent) (ev : SEvent) :
     KeepsR n ex (handleTaskGraphRelease ev) := by
-  have h_row := row_spec n ex
-  mvcgen [handleTaskGraphRelease, getGraph, h_row]
+  have h_row := row_rspec n ex
+  rmvcgen [handleTaskGraphRelease, getGraph, h_row]
   all_goals first
     | ev_close
     | wk_close
